@@ -239,7 +239,12 @@ func (s *bFiller) Fill(w io.Writer, stat decor.Statistics) error {
 		if !stat.Completed || s.tip.onComplete {
 			tip = s.tip.frames[s.tip.count%uint(len(s.tip.frames))]
 			s.tip.count++
-			fillCount += tip.width
+			if tip.width <= width {
+				fillCount += tip.width
+			} else {
+				// a tip wider than the bar itself doesn't fit
+				tip = component{}
+			}
 		}
 		switch refWidth := 0; {
 		case stat.Refill != 0:
